@@ -31,14 +31,13 @@ flags.DEFINE_string("output_file", "-", "Output filename ('-' means stdout)")
 
 def main(argv):
     with util.file_printer(FLAGS.output_file) as print:
-        sequences = sorted(
-            {
-                gm.codepoints
-                for gm in glyphmap.parse_csv(argv[1])
-                if len(gm.codepoints) > 1
-            }
-        )
-        print(features.generate_fea(sequences))
+        # use the names the glyph map assigned, the generator may not be ours
+        glyph_names = {
+            gm.codepoints: gm.glyph_name
+            for gm in glyphmap.parse_csv(argv[1])
+            if gm.codepoints
+        }
+        print(features.generate_fea(glyph_names))
 
 
 if __name__ == "__main__":
